@@ -59,6 +59,12 @@ CLAIMED = {
   "note": "Trusted: Lean kernel; the message-level abstraction of OS pipes, process exit and kill; async-std channels and timers; bincode framing. Real timing, scheduling, ctrl-c delivery and pipe capacity are runtime behaviour the model cannot exhibit (named partial in DESIGN.md).",
   "design_ref": "DESIGN.md §7 C18",
  },
+ "C05": {
+  "technique": "Lean 4 proof of the long-division core for every base and rational (invariant, exact termination, truncation bound, recurring block = geometric series, is_recurring shortcut) + exact text correspondence with Numeric::to_string and an independent reader of the printed numerals",
+  "text": "For every base b >= 2 and every cursor in [0,1): each emitted digit is < b, the cursor stays in [0,1), and after n steps c = sum d_i b^-(i+1) + cursor_n b^-n (long_division_invariant); a zero cursor means the digits denote c exactly (exact_denotes); otherwise the printed prefix is the truncation toward zero with error below one unit of the last place (approx_truncates); a repeated remainder repeats all later digits and the bracketed block denotes block/(b^p-1) exactly (seen_remainder_periodic, recurring_block_denotes); the is_recurring shortcut is sound (isRecurring_sound). The full text-producing functions (to_digits_impl, to_scientific, to_string, string_repr, the n pattern) are modelled and compared character by character with the implementation over boundary families, short/long/huge periods, notation switches, operands to 4096 bits, all 35 bases and all digits modes; an independent reader re-reads every printed numeral and checks exact = value, approximate = truncation within one ulp, stated period = block length, approx. marker iff not exact.",
+  "note": "Trusted: Lean kernel + Mathlib field/order lemmas; the f64 digit-count estimate (recomputed with the same expression); text assembly is covered by correspondence and the reader, not by a theorem (read_render is future work); in bases >= 15 the marker e is a digit and the reader is told the mode.",
+  "design_ref": "DESIGN.md §7 C05",
+ },
 }
 
 NOT_YET = {
